@@ -10,6 +10,7 @@ import inspect
 import operator
 import textwrap
 import types
+import functools
 
 import z3
 
@@ -104,8 +105,17 @@ class Interp:
             return n != 0
         if isinstance(v, SStr):
             return self.ctx.decide(z3.Length(v.e) != 0)
+        if isinstance(v, SOpaque) and v.truth is not None:
+            return self.truth(v.truth)
         if isinstance(v, SOpaque):
-            raise Unsupported("truth value of an uninterpreted value (%s)" % v.tag)
+            # nothing is known about an uninterpreted value: both truth values are explored (an over-approximation;
+            # a counterexample that depends on the wrong one does not replay natively and is not reported)
+            memo = self.ctx.__dict__.setdefault("_opaque_truth", {})
+            if id(v) not in memo:
+                from .values import fresh_name
+
+                memo[id(v)] = (v, z3.Bool(fresh_name("truth-of-" + str(v.tag)[:40])))
+            return self.ctx.decide(memo[id(v)][1])
         return bool(v)
 
     def in_scope_module(self, modname):
@@ -134,9 +144,39 @@ class Interp:
             return self.instantiate(f, args, kwargs)
         if self.in_scope(f):
             return self.run_function(f, args, kwargs)
+        if isinstance(f, functools._lru_cache_wrapper) and self.in_scope(getattr(f, "__wrapped__", None)):
+            return self.call_memoised(f, args, kwargs)
         if isinstance(f, (SOpaque,)):
             raise Unsupported("call of an uninterpreted value")
         return self.builtin(f, args, kwargs)
+
+    def call_memoised(self, f, args, kwargs):
+        """functools.lru_cache / functools.cache around a function of the package: the wrapped function is interpreted,
+        and the cache is modelled -- a later call with equal arguments returns the very object stored by the earlier
+        one (eviction and typed=True are not modelled; the cache is empty at the start of a case)"""
+        memo = self.ctx.__dict__.setdefault("_memo", {}).setdefault(id(f), [])
+        for pargs, pkw, res in memo:
+            if len(pargs) != len(args) or sorted(pkw) != sorted(kwargs):
+                continue
+            same = True
+            for x, y in list(zip(pargs, args)) + [(pkw[k], kwargs[k]) for k in pkw]:
+                if x is y:
+                    continue
+                if is_sym(x) or is_sym(y):
+                    if isinstance(x, (SInt, SBool, int, bool)) and isinstance(y, (SInt, SBool, int, bool)):
+                        same = same and self.truth(x == y)
+                    else:
+                        raise Unsupported("memoised call keyed on a symbolic non-integer argument")
+                else:
+                    same = same and x == y
+                if not same:
+                    break
+            if same:
+                return res
+        res = self.run_function(f.__wrapped__, args, kwargs)
+        memo.append((list(args), dict(kwargs), res))
+        self.ctx.writes.append((f, "memoised-result", None))
+        return res
 
     @staticmethod
     def _lookup(table, f):
